@@ -571,6 +571,31 @@ theorem autocomplete_cap (cols auto : Nat) (rows : List Nat) (h : auto ≤ MAX_A
     · exact h
     · exact ih _ (by omega)
 
+/-- Every cell of an accepted body row is either in the source or autocompleted: `cols` cells per row. -/
+theorem body_cells_eq (cols auto : Nat) (rows : List Nat) :
+    cols * acceptedRows cols auto rows + auto = presentCells cols auto rows + autocompleteRows cols auto rows := by
+  induction rows generalizing auto with
+  | nil => simp [acceptedRows, presentCells, autocompleteRows]
+  | cons k ks ih =>
+    simp only [acceptedRows, presentCells, autocompleteRows]
+    split
+    · simp
+    · have := ih (auto + (cols - k))
+      rw [Nat.mul_add, Nat.mul_one]
+      omega
+
+/-- **Table auto-completion is capped.**  The body of a table has at most the cells that are in the
+    source, plus `MAX_AUTOCOMPLETED_CELLS`, plus one row: for every column count and every sequence
+    of row widths (the harness compares `acceptedRows` / `autocompleteRows` with the `num_rows` /
+    `num_nonempty_cells` bookkeeping of the real `NodeTable` and observes the bound on tables above the cap). -/
+theorem table_cells_capped (cols : Nat) (rows : List Nat) :
+    cols * acceptedRows cols 0 rows ≤ presentCells cols 0 rows + MAX_AUTOCOMPLETED_CELLS + cols := by
+  have h1 := body_cells_eq cols 0 rows
+  have h2 := autocomplete_cap cols 0 rows (by omega)
+  omega
+
+example : acceptedRows 3 0 [1, 5, 3] = 3 ∧ presentCells 3 0 [1, 5, 3] = 7 ∧ autocompleteRows 3 0 [1, 5, 3] = 2 := by decide
+
 theorem xml_indent_cap (depth : Nat) : xmlIndent depth ≤ 40 := by
   unfold xmlIndent XML_MAX_INDENT; omega
 
